@@ -8,7 +8,13 @@ from . import limconv as LC
 COQ_TARGETS = ["Corr/LimCorr.vo"]
 
 
-def run_modes(ctx, pid, modes, props_of_interest, rule, profile="release"):
+def _stale_forget_class(case, v):
+    """known-finding class predicate: the failing key's lookup hit a stale-forget event at or before the failing step"""
+    key = case["steps"][v["step"]]["req"][0]
+    return any(s.get("sf") and s["req"][0] == key for s in case["steps"][:v["step"] + 1])
+
+
+def run_modes(ctx, pid, modes, props_of_interest, rule, profile="release", known_class=None):
     """modes: list of (mode, [args]).  props_of_interest: oracle tags that count as violations
     of this property (others are ignored here: they belong to other checks)."""
     bins = C.harness_build(ctx, "lib", ["lim"], profile=profile)
@@ -46,6 +52,11 @@ def run_modes(ctx, pid, modes, props_of_interest, rule, profile="release"):
             distinct.add(json.dumps([c["cfg"], [s["req"] for s in c["steps"]]]))
         for v in c["viol"]:
             if v["prop"] in props_of_interest:
+                if known_class == "stale-forget" and _stale_forget_class(c, v):
+                    ctx.known_hits = getattr(ctx, "known_hits", 0) + 1
+                    if c["mode"].startswith("witness"):
+                        ctx.known_witness_reproduced = True
+                    continue
                 nviol += 1
                 if len(ctx.violations) < 20:
                     ctx.violations.append({
@@ -57,7 +68,7 @@ def run_modes(ctx, pid, modes, props_of_interest, rule, profile="release"):
     for i in mism[:8]:
         diag = C.coq_eval(ctx, "lim_mm_" + pid, LC.HEADER, ["lim_case_diag (%s)" % terms[i]])
         c = all_cases[i]
-        has_v = any(v["prop"] in props_of_interest for v in c["viol"])
+        has_v = any(v["prop"] in props_of_interest and not (known_class == "stale-forget" and _stale_forget_class(c, v)) for v in c["viol"])
         if not has_v:
             ctx.broken.append("correspondence Limiter model vs rate_limiter.rs/store disagrees (this property's oracle holds on the case): mode=%s cfg=%s first bad step and model view=%s history=%s"
                               % (c["mode"], json.dumps(c["cfg"]), diag, json.dumps([s["req"] for s in c["steps"]])[:1200]))
